@@ -270,31 +270,40 @@ def rule_lookup(facts, rep):
               "state_change_ must read STATE_CHANGES[state as usize][byte as usize]", loc(b2))
 
 
-def advance_cases(facts):
-    """advance() evaluated abstractly once per parser state: {state name: [(callee, argument values)...]} — the calls it makes,
-    in order, with process_utf8 / state_change / perform_state_change kept as recorded atoms."""
+def advance_by_value(facts):
+    """advance() evaluated on every (parser state, byte): the calls it makes (process_utf8, perform_state_change, perform_action and
+    the performer's callbacks, recorded), with state_change answering from the transition table (Anywhere row first — that this is
+    what the function computes is rule `lookup`) -> {(state, byte): (calls, stores)}"""
     import abseval
     b = facts.body(cp.CRATE, P + "advance")
+    _, rows = cp.table(facts)
     out = {}
     for st in vt500.STATES:
-        calls = []
+        si = vt500.STATES.index(st)
+        for byte in range(256):
+            calls = []
 
-        def rec(name, ret):
-            return lambda a_, name=name, ret=ret: (calls.append((name, list(a_))), ret)[1]
-        ev = abseval.Evaluator(facts, cp.CRATE, {
-            P + "process_utf8": rec("process_utf8", ("unit",)),
-            "anstyle_parse::state::state_change": rec("state_change", ("tuple", ("sym", "next-state"), ("sym", "next-action"))),
-            "anstyle_parse::state::definitions::state_change": rec("state_change", ("tuple", ("sym", "next-state"), ("sym", "next-action"))),
-            P + "perform_state_change": rec("perform_state_change", ("unit",)),
-        })
-        env = abseval.Env()
-        env.update({"self": ("sym", "self"), "self.state": ("enum", cp.STATE + "::" + st), b["params"][1]["name"]: ("sym", "performer"),
-                    b["params"][2]["name"]: ("sym", "byte")})
-        try:
-            ev.ev(b["hir"], env)
-        except abseval.Return:
-            pass
-        out[st] = (calls, list(ev.stores))
+            def rec(name, ret=("unit",)):
+                return lambda a_, name=name, ret=ret: (calls.append((name, list(a_))), ret)[1]
+
+            def lookup(a_):
+                if a_[0][0] != "enum" or a_[1][0] != "int":
+                    raise Unrecognised("state_change on unknown arguments")
+                ns, act = cp.effective_cell(rows, vt500.STATES.index(a_[0][1].split("::")[-1]), a_[1][1])
+                return ("tuple", ("enum", cp.STATE + "::" + vt500.STATES[ns]), ("enum", cp.ACTION + "::" + vt500.ACTIONS[act]))
+            atoms = {P + "process_utf8": rec("process_utf8"), P + "perform_state_change": rec("perform_state_change"), P + "perform_action": rec("perform_action"),
+                     "anstyle_parse::state::state_change": lookup, "anstyle_parse::state::definitions::state_change": lookup}
+            for cb in ("print", "execute", "hook", "put", "unhook", "osc_dispatch", "csi_dispatch", "esc_dispatch"):
+                atoms["anstyle_parse::Perform::" + cb] = rec(cb)
+            ev = abseval.Evaluator(facts, cp.CRATE, atoms)
+            env = abseval.Env()
+            env.update({"self": ("sym", "self"), "self.state": ("enum", cp.STATE + "::" + st), b["params"][1]["name"]: ("sym", "performer"),
+                        b["params"][2]["name"]: ("int", byte)})
+            try:
+                ev.ev(b["hir"], env)
+            except abseval.Return:
+                pass
+            out[(st, byte)] = (calls, list(ev.stores))
     return out
 
 
@@ -302,21 +311,40 @@ def rule_advance(facts, rep):
     b = facts.body(cp.CRATE, P + "advance")
     rep.fn(b["path"])
     try:
-        cases = advance_cases(facts)
+        cases = advance_by_value(facts)
         why = ""
     except Unrecognised as ex:
         cases, why = {}, f"not evaluable: {ex}"
-    u = cases.get("Utf8")
-    ok_utf8 = u is not None and u[0] == [("process_utf8", [("sym", "self"), ("sym", "performer"), ("sym", "byte")])] and not u[1]
+    _, rows = cp.table(facts)
+    SELF, PERF = ("sym", "self"), ("sym", "performer")
+    bad_u = [(byte, c) for (st, byte), c in cases.items() if st == "Utf8" and c != ([("process_utf8", [SELF, PERF, ("int", byte)])], [])]
+    ok_utf8 = bool(cases) and not bad_u
     rep.check(ok_utf8, "advance", b["path"], "utf8-out-of-band",
-              f"in state Utf8 the byte goes to process_utf8 and nothing else happens {why} {u if not ok_utf8 else ''}"[:300], loc(b))
-    others = [st for st in vt500.STATES if st != "Utf8"]
-    ok_sc = bool(cases) and all(cases[st][0][:1] == [("state_change", [("enum", cp.STATE + "::" + st), ("sym", "byte")])] for st in others)
-    rep.check(ok_sc, "advance", b["path"], "table-lookup", "in every other state: (state, action) = state_change(self.state, byte) first", loc(b))
-    ok_psc = bool(cases) and all(cases[st][0][1:] == [("perform_state_change", [("sym", "self"), ("sym", "performer"), ("sym", "next-state"),
-                                                                                ("sym", "next-action"), ("sym", "byte")])] and not cases[st][1]
-                                 for st in others)
-    rep.check(ok_psc, "advance", b["path"], "perform", "then perform_state_change(self, performer, state, action, byte) with the looked-up pair, and nothing else", loc(b))
+              f"in state Utf8 the byte goes to process_utf8 and nothing else happens {why} {bad_u[:1]}"[:300], loc(b))
+    # every other state, every byte: what happens is perform_state_change(self, performer, state, action, byte) for the pair the
+    # table gives — called as such or, where the target is Anywhere ("stay": the action only, rule `order`), as perform_action(action,
+    # byte) or, for Print / Execute (rule `action-map`), as the performer's callback itself: a fast path for plain text is the same
+    bad_l, bad_p = [], []
+    for (st, byte), (calls, stores) in cases.items():
+        if st == "Utf8":
+            continue
+        ns, act = cp.effective_cell(rows, vt500.STATES.index(st), byte)
+        NS, ACT = ("enum", cp.STATE + "::" + vt500.STATES[ns]), ("enum", cp.ACTION + "::" + vt500.ACTIONS[act])
+        forms = [[("perform_state_change", [SELF, PERF, NS, ACT, ("int", byte)])]]
+        if vt500.STATES[ns] == "Anywhere":
+            forms.append([("perform_action", [SELF, PERF, ACT, ("int", byte)])])
+            if vt500.ACTIONS[act] == "Print":
+                forms.append([("print", [PERF, ("char", byte)])])
+                forms.append([("print", [PERF, ("int", byte)])])          # (`byte as char`: the same scalar value)
+            if vt500.ACTIONS[act] == "Execute":
+                forms.append([("execute", [PERF, ("int", byte)])])
+        if calls not in forms:
+            (bad_l if not calls or calls[0][0] in ("process_utf8",) or len(calls) != 1 else bad_p).append(f"state {st}, byte {byte:#04x}: {str(calls)[:160]}")
+        elif stores:
+            bad_p.append(f"state {st}, byte {byte:#04x}: also stores {str(stores)[:80]}")
+    rep.check(bool(cases) and not bad_l, "advance", b["path"], "table-lookup", f"in every other state: (state, action) = state_change(self.state, byte) first {bad_l[:1]}"[:300], loc(b))
+    rep.check(bool(cases) and not bad_p, "advance", b["path"], "perform",
+              f"then perform_state_change(self, performer, state, action, byte) with the looked-up pair, and nothing else {bad_p[:1]}"[:300], loc(b))
     rep.count(len(cases))
 
 
